@@ -168,21 +168,21 @@ pub fn check_case(c: &Case, st: &mut Stats) -> Option<(String, String)> {
     let mut indexes: Vec<Index> = vec![];
     let mut seg_ids: Vec<SegmentId> = vec![];
     let mut k = 0u64;
-    let mut index = Index::builder().schema(schema.clone()).settings(settings(c, 0)).create_in_ram().ok()?;
+    let mut index = crate::orv!(Index::builder().schema(schema.clone()).settings(settings(c, 0)).create_in_ram(), "Index::builder().schema(schema.clone()).settings(s");
     for (si, &sz) in c.sizes.iter().enumerate() {
         if separate && si > 0 {
             indexes.push(index);
-            index = Index::builder().schema(schema.clone()).settings(settings(c, 0)).create_in_ram().ok()?;
+            index = crate::orv!(Index::builder().schema(schema.clone()).settings(settings(c, 0)).create_in_ram(), "Index::builder().schema(schema.clone()).settings(s");
         }
         *index.settings_mut() = settings(c, if separate { 0 } else { si });
-        let mut w: IndexWriter = index.writer_with_num_threads(1, 30_000_000).ok()?;
+        let mut w: IndexWriter = crate::orv!(index.writer_with_num_threads(1, 30_000_000), "index.writer_with_num_threads(1 30_000_000)");
         w.set_merge_policy(Box::new(tantivy::merge_policy::NoMergePolicy));
         for _ in 0..sz {
-            w.add_document(make_doc(&schema, k)).ok()?;
+            crate::orv!(w.add_document(make_doc(&schema, k)), "w.add_document(make_doc( schema k))");
             k += 1;
         }
-        w.commit().ok()?;
-        for id in index.searchable_segment_ids().ok()? {
+        crate::orv!(w.commit(), "w.commit()");
+        for id in crate::orv!(index.searchable_segment_ids(), "index.searchable_segment_ids()") {
             if !seg_ids.contains(&id) {
                 seg_ids.push(id);
             }
@@ -194,12 +194,12 @@ pub fn check_case(c: &Case, st: &mut Stats) -> Option<(String, String)> {
     let filtered = c.api == "filtered";
     if !filtered && !c.deleted.is_empty() {
         for index in &indexes {
-            let mut w: IndexWriter = index.writer_with_num_threads(1, 30_000_000).ok()?;
+            let mut w: IndexWriter = crate::orv!(index.writer_with_num_threads(1, 30_000_000), "index.writer_with_num_threads(1 30_000_000)");
             w.set_merge_policy(Box::new(tantivy::merge_policy::NoMergePolicy));
             for &d in &c.deleted {
                 w.delete_term(Term::from_field_u64(idf, d as u64));
             }
-            w.commit().ok()?;
+            crate::orv!(w.commit(), "w.commit()");
         }
     }
     // source dumps, in source order
@@ -244,7 +244,7 @@ pub fn check_case(c: &Case, st: &mut Stats) -> Option<(String, String)> {
             let index = &mut indexes[0];
             *index.settings_mut() = settings(c, c.compressors.len() - 1);
             let ids: Vec<SegmentId> = c.order.iter().filter(|&&s| src_alive_all[s]).map(|&s| seg_ids[s]).collect();
-            let mut w: IndexWriter = index.writer_with_num_threads(1, 30_000_000).ok()?;
+            let mut w: IndexWriter = crate::orv!(index.writer_with_num_threads(1, 30_000_000), "index.writer_with_num_threads(1 30_000_000)");
             w.set_merge_policy(Box::new(tantivy::merge_policy::NoMergePolicy));
             if ids.len() >= 2 || (ids.len() == 1 && !c.deleted.is_empty()) {
                 if let Err(e) = w.merge(&ids).wait() {
@@ -252,7 +252,7 @@ pub fn check_case(c: &Case, st: &mut Stats) -> Option<(String, String)> {
                 }
                 st.count("writer_merges");
             }
-            w.wait_merging_threads().ok()?;
+            crate::orv!(w.wait_merging_threads(), "w.wait_merging_threads()");
             indexes[0].clone()
         }
         "indices" => {
@@ -275,7 +275,7 @@ pub fn check_case(c: &Case, st: &mut Stats) -> Option<(String, String)> {
                 b += s;
             }
             for &s in &c.order {
-                let seg = indexes[s].searchable_segments().ok()?.into_iter().next()?;
+                let seg = crate::orv!(indexes[s].searchable_segments(), "indexes s .searchable_segments()").into_iter().next()?;
                 let del: Vec<u32> = c.deleted.iter().filter(|&&d| d >= base_of[s] && d < base_of[s] + c.sizes[s]).map(|&d| (d - base_of[s]) as u32).collect();
                 filters.push(if del.is_empty() { None } else { Some(bitset_to_alive(c.sizes[s] as u32, &del)) });
                 segs.push(seg);
